@@ -26,12 +26,13 @@ type progNode struct {
 	Children []progNode `json:"children,omitempty"` // group body
 	Methods  []string   `json:"methods,omitempty"`  // combo: verbs in call order (repeats allowed); routes: method names as spelled
 	PerM     []int      `json:"per_method,omitempty"`
-	PerG     []string   `json:"per_method_group,omitempty"` // combo: the k-th verb is declared inside Group(PerG[k]) (""=same scope); the Combo value itself was created outside
-	Share    int        `json:"share_prefix,omitempty"`     // verb: >0 = pass the first Share handlers of the previous verb route's slice (same backing array, same handlers) instead of fresh ones
-	Spelling string     `json:"spelling,omitempty"`         // routes: comma | multi
-	On       bool       `json:"on,omitempty"`               // autohead
-	Hdr      bool       `json:"headers_chained,omitempty"`  // verb | routes | any: .Headers("X-K", "^v1$") is chained on the value the call returns (it constrains what that call registered itself - not the HEAD twin AutoHead adds)
-	W        int        `json:"wrapper,omitempty"`          // wrapper: HandlerWrapper(k-th wrapper) from here on; 0 = none. A route's handlers (its groups' handlers included) are wrapped with the wrapper in force when the route is registered
+	PerG     []string   `json:"per_method_group,omitempty"`              // combo: the k-th verb is declared inside Group(PerG[k]) (""=same scope); the Combo value itself was created outside
+	Share    int        `json:"share_prefix,omitempty"`                  // verb: >0 = pass the first Share handlers of the previous verb route's slice (same backing array, same handlers) instead of fresh ones
+	Again    string     `json:"same_arguments_again_for_path,omitempty"` // routes/multi: a second Routes call for this path is made with the very same argument slice (extra methods + handlers)
+	Spelling string     `json:"spelling,omitempty"`                      // routes: comma | multi
+	On       bool       `json:"on,omitempty"`                            // autohead
+	Hdr      bool       `json:"headers_chained,omitempty"`               // verb | routes | any: .Headers("X-K", "^v1$") is chained on the value the call returns (it constrains what that call registered itself - not the HEAD twin AutoHead adds)
+	W        int        `json:"wrapper,omitempty"`                       // wrapper: HandlerWrapper(k-th wrapper) from here on; 0 = none. A route's handlers (its groups' handlers included) are wrapped with the wrapper in force when the route is registered
 }
 
 type progCase struct {
@@ -104,6 +105,9 @@ func genProgBody(rng *rand.Rand, depth int) []progNode {
 					}
 				}
 				pn.Methods = append(pn.Methods, m)
+			}
+			if pn.Spelling == "multi" && rng.Intn(4) == 0 {
+				pn.Again = c11Paths[rng.Intn(len(c11Paths))]
 			}
 			out = append(out, pn)
 		case k < 18:
@@ -235,6 +239,12 @@ func (fl *flattener) body(nodes []progNode) {
 			}
 			if n.Hdr {
 				fl.markHdr(from)
+			}
+			if n.Again != "" && n.Spelling == "multi" {
+				fl.step++
+				for _, m := range n.Methods {
+					fl.add(fl.step, strings.ToUpper(strings.TrimSpace(m)), n.Again, ids)
+				}
 			}
 		case "any":
 			ids := fl.ids(n.NH)
@@ -409,12 +419,13 @@ func (x *progExec) body(nodes []progNode) {
 			}
 		case "routes":
 			hs := x.hs(n.NH, n.Spare)
+			var args []flamego.Handler
 			x.guarded(step, func() {
 				var rt *flamego.Route
 				if n.Spelling == "comma" {
 					rt = f.Routes(n.Path, strings.Join(n.Methods, ","), hs...)
 				} else {
-					args := make([]flamego.Handler, 0, len(n.Methods)+len(hs)+n.Spare)
+					args = make([]flamego.Handler, 0, len(n.Methods)+len(hs)+n.Spare)
 					for _, m := range n.Methods[1:] {
 						args = append(args, m)
 					}
@@ -425,6 +436,10 @@ func (x *progExec) body(nodes []progNode) {
 					rt.Headers(c11HdrName, c11HdrExpr)
 				}
 			})
+			if n.Again != "" && n.Spelling == "multi" {
+				x.step++
+				x.guarded(x.step, func() { f.Routes(n.Again, n.Methods[0], args...) })
+			}
 		case "any":
 			hs := x.hs(n.NH, n.Spare)
 			x.guarded(step, func() {
@@ -669,6 +684,9 @@ func progFeatures(nodes []progNode, depth int, inGroup bool) (bool, []string) {
 			feats = append(feats, "autohead")
 		case "routes":
 			feats = append(feats, "routes-"+n.Spelling)
+			if n.Again != "" && n.Spelling == "multi" {
+				feats = append(feats, "routes-arguments-passed-again")
+			}
 			if sawNested {
 				after++
 			}
@@ -700,7 +718,7 @@ func runC11(r *core.Run) {
 		judgeProg(w, c)
 	})
 	r.Gate("distinct_nontrivial", r.NonTrivialCount(), 2000)
-	for _, k := range []string{"feature:nesting>=2", "feature:combo>=2", "feature:combo-spare-capacity", "feature:autohead-inside-group", "feature:routes-comma", "feature:routes-multi", "feature:any", "feature:group-handlers", "feature:siblings-after-nested-group", "feature:wrapper-changed-inside-group", "feature:wrapper", "feature:headers-chained", "combo-refused-repeated-method", "statement-refused-in-both"} {
+	for _, k := range []string{"feature:nesting>=2", "feature:combo>=2", "feature:combo-spare-capacity", "feature:autohead-inside-group", "feature:routes-comma", "feature:routes-multi", "feature:any", "feature:group-handlers", "feature:siblings-after-nested-group", "feature:wrapper-changed-inside-group", "feature:wrapper", "feature:headers-chained", "feature:routes-arguments-passed-again", "combo-refused-repeated-method", "statement-refused-in-both"} {
 		r.GateCounter(k, 20)
 	}
 	r.GateCounter("requests-compared", int64(n)*20)
